@@ -21,14 +21,23 @@ Definition pvalid (i : N) (p : prim) (s : st) : Prop :=
   | _ => True
   end.
 
-(* [psafe]: a registration does not change, in place, the service name of an existing service
-   instance nor the service a check is attached to *)
+(* [psafe]: a check that leaves its service carries the name that service is registered under
+   (ensureCheckTxn bumps the service it leaves under the name stored in the check row) *)
 Definition psafe (p : prim) (s : st) : Prop :=
+  match p with
+  | PChkPut n cid x =>
+    forall o sv, checks s !! (n, cid) = Some o -> c_svc o <> c_svc x -> c_svc o <> "" ->
+                 services s !! (n, c_svc o) = Some sv -> sv_name sv = c_svcname o
+  | _ => True
+  end.
+
+(* [pkeep]: the primitive keeps the checks' stored service names current: a registration does not
+   rename a service id in place (its checks would keep the old name) *)
+Definition pkeep (p : prim) (s : st) : Prop :=
   match p with
   | PSvcPut n sid x =>
     (forall o, services s !! (n, sid) = Some o -> sv_name o = sv_name x) /\
     (forall cid c, checks s !! (n, cid) = Some c -> c_svc c = sid -> c_svcname c = sv_name x)
-  | PChkPut n cid x => forall o, checks s !! (n, cid) = Some o -> c_svc o = c_svc x
   | _ => True
   end.
 
@@ -42,6 +51,11 @@ Fixpoint Safe (i : N) (ps : list prim) (s : st) : Prop :=
   | [] => True
   | p :: ps' => psafe p s /\ Safe i ps' (papply i p s)
   end.
+Fixpoint Keep (i : N) (ps : list prim) (s : st) : Prop :=
+  match ps with
+  | [] => True
+  | p :: ps' => pkeep p s /\ Keep i ps' (papply i p s)
+  end.
 
 Lemma prun_app i a b s : prun i (a ++ b) s = prun i b (prun i a s).
 Proof. unfold prun. apply foldl_app. Qed.
@@ -51,6 +65,12 @@ Proof. reflexivity. Qed.
 Lemma Valid_app i a b s : Valid i (a ++ b) s <-> Valid i a s /\ Valid i b (prun i a s).
 Proof.
   revert s. induction a as [|p a IH]; intros s; cbn [Valid app].
+  - cbn. tauto.
+  - rewrite IH, prun_cons. tauto.
+Qed.
+Lemma Keep_app i a b s : Keep i (a ++ b) s <-> Keep i a s /\ Keep i b (prun i a s).
+Proof.
+  revert s. induction a as [|p a IH]; intros s; cbn [Keep app].
   - cbn. tauto.
   - rewrite IH, prun_cons. tauto.
 Qed.
@@ -71,7 +91,7 @@ Lemma Coherent_st0 : Coherent st0.
 Proof. intros n cid x sv H. cbn in H. rewrite lookup_empty in H. discriminate. Qed.
 
 Lemma Coherent_papply i p s :
-  Coherent s -> pvalid i p s -> psafe p s -> Coherent (papply i p s).
+  Coherent s -> pvalid i p s -> pkeep p s -> Coherent (papply i p s).
 Proof.
   intros HC Hv Hs n cid x sv. rewrite checks_papply, services_papply.
   destruct p; try (apply HC).
@@ -125,11 +145,22 @@ Proof.
   revert s. induction ps as [|p ps IH]; intros s HB HV; [exact HB|].
   destruct HV as [Hp HV]. rewrite prun_cons. apply IH; [apply Bnd_papply; assumption|exact HV].
 Qed.
-Lemma Coherent_prun i ps s : Coherent s -> Valid i ps s -> Safe i ps s -> Coherent (prun i ps s).
+Lemma Coherent_psafe p s : Coherent s -> psafe p s.
+Proof. intros HC. destruct p; try exact I. intros o sv Ho _ Hne Hsv. eapply HC; eassumption. Qed.
+
+Lemma Coherent_prun i ps s : Coherent s -> Valid i ps s -> Keep i ps s -> Coherent (prun i ps s).
 Proof.
   revert s. induction ps as [|p ps IH]; intros s HC HV HS; [exact HC|].
   destruct HV as [Hp HV], HS as [Hq HS]. rewrite prun_cons.
   apply IH; [eapply Coherent_papply; eassumption|exact HV|exact HS].
+Qed.
+
+(* along a trace that keeps the names current, coherence of the start state makes every step safe *)
+Lemma Safe_of_Coherent i ps s : Coherent s -> Valid i ps s -> Keep i ps s -> Safe i ps s.
+Proof.
+  revert s. induction ps as [|p ps IH]; intros s HC HV HK; [exact I|].
+  destruct HV as [Hp HV], HK as [Hk HK]. split; [apply Coherent_psafe, HC|].
+  apply IH; [eapply Coherent_papply; eassumption|exact HV|exact HK].
 Qed.
 
 (* ---------- traces without service / check primitives leave those tables alone ---------- *)
@@ -324,18 +355,18 @@ End traces2.
 Definition svc_safe (n : string) (sp : svcspec) (s : st) : Prop :=
   (forall o, services s !! (n, sp_id sp) = Some o -> sv_name o = sp_name sp) /\
   (forall cid c, checks s !! (n, cid) = Some c -> c_svc c = sp_id sp -> c_svcname c = sp_name sp).
-Definition chk_safe (n : string) (cs : chkspec) (s : st) : Prop :=
-  forall o, checks s !! (n, cs_id cs) = Some o -> c_svc o = cs_svc cs.
-
-(* a registration keeps the service name of an existing service id, and keeps an existing check
-   attached to the service it is attached to *)
+(* the one combination left out: a registration that renames its service id AND carries checks (the
+   checks of the renamed service keep the old name until they are written, and one of them might be
+   moved by the same request) *)
 Definition safe_cmd (c : cmd) (s : st) : Prop :=
   match c with
-  | EnsureSvc n sp => svc_safe n sp s
-  | EnsureCheck n cs => chk_safe n cs s
-  | Register n _ sp cks =>
-    match sp with Some sp => svc_safe n sp s | None => True end /\
-    NoDup (cs_id <$> cks) /\ Forall (fun cs => chk_safe n cs s) cks
+  | Register n _ (Some sp) cks => cks = [] \/ svc_safe n sp s
+  | _ => True
+  end.
+(* writes that keep the checks' stored names current: no service id is registered under another name *)
+Definition rename_free (c : cmd) (s : st) : Prop :=
+  match c with
+  | EnsureSvc n sp | Register n _ (Some sp) _ => svc_safe n sp s
   | _ => True
   end.
 
@@ -365,6 +396,18 @@ Proof.
 Qed.
 Lemma easy_always_safe p : easy p -> always_safe p.
 Proof. destruct p; cbn; tauto. Qed.
+Lemma always_safe_Keep i ps s : Forall always_safe ps -> Keep i ps s.
+Proof.
+  revert s. induction ps as [|p ps IH]; intros s HF; [exact I|].
+  apply Forall_cons in HF as [Hp HF]. split; [destruct p; try exact I; contradiction|apply IH, HF].
+Qed.
+Lemma easy_Keep i ps s : Forall easy ps -> Keep i ps s.
+Proof. intros HF. apply always_safe_Keep. eapply Forall_impl; [exact HF|apply easy_always_safe]. Qed.
+Lemma svc_free_Keep i ps s : Forall svc_free ps -> Keep i ps s.
+Proof.
+  revert s. induction ps as [|p ps IH]; intros s HF; [exact I|].
+  apply Forall_cons in HF as [Hp HF]. split; [destruct p; try exact I; contradiction|apply IH, HF].
+Qed.
 
 Section traces3.
   Context (i : N).
@@ -406,7 +449,7 @@ Section traces3.
 
   Lemma ensure_check_ok n cs s ps :
     ensure_check i n cs s = Some ps ->
-    Valid i ps s /\ (chk_safe n cs s -> Safe i ps s) /\
+    Valid i ps s /\ (Coherent s -> Safe i ps s) /\
     (forall cid, cid <> cs_id cs -> Forall (chk_other n cid) ps) /\ Forall svc_free ps /\ Forall node_free ps.
   Proof.
     intros H. destruct (ensure_check_shape _ _ _ _ H) as (a & b & hc & -> & Ha & Hb).
@@ -418,9 +461,9 @@ Section traces3.
     - apply Valid_app. split; [apply easy_Valid; eapply Forall_impl; [exact Ha|apply light_easy]|].
       destruct Hb as [->|(-> & Hc & Hs)]; [exact I|]. split; [|exact I].
       cbn [pvalid]. rewrite Hsv, Hc. exact Hs.
-    - intros Hsafe. apply Safe_app. split; [apply easy_Safe; eapply Forall_impl; [exact Ha|apply light_easy]|].
+    - intros HC. apply Safe_app. split; [apply easy_Safe; eapply Forall_impl; [exact Ha|apply light_easy]|].
       destruct Hb as [->|(-> & Hc & Hs)]; [exact I|]. split; [|exact I].
-      cbn [psafe]. rewrite Hck, Hc. exact Hsafe.
+      cbn [psafe]. rewrite Hck, Hsv. intros o sv Ho _ Hne Hsvl. eapply HC; eassumption.
     - intros cid Hne. apply Forall_app. split; [eapply Forall_impl; [exact Ha|apply light_chk_other]|].
       destruct Hb as [->|(-> & _)]; repeat constructor. cbn. congruence.
     - apply Forall_app. split; [eapply Forall_impl; [exact Ha|apply light_svc_free]|].
@@ -431,20 +474,22 @@ Section traces3.
 
   Lemma ensure_service_ok n sp s ps :
     ensure_service i n sp s = Some ps ->
-    Valid i ps s /\ (svc_safe n sp s -> Safe i ps s) /\ Forall chk_free ps /\ Forall node_free ps.
+    Valid i ps s /\ Safe i ps s /\ (svc_safe n sp s -> Keep i ps s) /\ Forall chk_free ps /\ Forall node_free ps.
   Proof.
     unfold ensure_service. destruct (nodes s !! n) as [x|] eqn:En; [|discriminate].
     assert (Hput : forall c, let y := Svc (sp_name sp) (sp_proxy sp) (sp_dest sp) (sp_native sp) (sp_tags sp) (sp_port sp) c i in
-              Valid i [PSvcPut n (sp_id sp) y] s /\ (svc_safe n sp s -> Safe i [PSvcPut n (sp_id sp) y] s) /\
+              Valid i [PSvcPut n (sp_id sp) y] s /\ Safe i [PSvcPut n (sp_id sp) y] s /\
+              (svc_safe n sp s -> Keep i [PSvcPut n (sp_id sp) y] s) /\
               Forall chk_free [PSvcPut n (sp_id sp) y] /\ Forall node_free [PSvcPut n (sp_id sp) y]).
-    { intros c y. split; [|split; [|split]].
+    { intros c y. split; [|split; [|split; [|split]]].
       - split; [|exact I]. cbn. rewrite En. eexists; reflexivity.
+      - split; exact I.
       - intros [H1 H2]. split; [|exact I]. split; cbn; assumption.
       - repeat constructor.
       - repeat constructor. }
     destruct (services s !! (n, sp_id sp)) as [o|] eqn:Eo; [destruct (same_service o sp)|];
       intros [= <-]; try apply Hput.
-    split; [exact I|]. split; [intros; exact I|]. split; constructor.
+    split; [exact I|]. split; [exact I|]. split; [intros; exact I|]. split; constructor.
   Qed.
 
   Lemma ensure_node_ok n addr s (t : st) :
@@ -456,54 +501,54 @@ Section traces3.
 
   Lemma checks_loop_ok n cks s ps :
     oseq_all i (fun cs => ensure_check i n cs) cks s = Some ps ->
-    Valid i ps s /\ (NoDup (cs_id <$> cks) -> Forall (fun cs => chk_safe n cs s) cks -> Safe i ps s).
+    Valid i ps s /\ (Coherent s -> Safe i ps s) /\ Keep i ps s.
   Proof.
     revert s ps. induction cks as [|cs cks IH]; intros s ps; cbn [oseq_all].
-    - intros [= <-]. split; [exact I|intros; exact I].
+    - intros [= <-]. split; [exact I|]. split; [intros; exact I|exact I].
     - unfold oseq. destruct (ensure_check i n cs s) as [pa|] eqn:Ea; [|discriminate].
       destruct (oseq_all i _ cks (prun i pa s)) as [pb|] eqn:Eb; [|discriminate].
-      intros [= <-]. destruct (ensure_check_ok _ _ _ _ Ea) as (Va & Sa & Oa & _ & _).
-      destruct (IH _ _ Eb) as [Vb Sb]. split.
-      + apply Valid_app. split; assumption.
-      + intros Hnd Hall. cbn [fmap list_fmap] in Hnd. apply NoDup_cons in Hnd as [Hnin Hnd].
-        apply Forall_cons in Hall as [Hcs Hall]. apply Safe_app. split; [apply Sa, Hcs|].
-        apply Sb; [exact Hnd|]. apply Forall_forall. intros cs' Hin.
-        rewrite Forall_forall in Hall. specialize (Hall _ Hin).
-        unfold chk_safe in *. rewrite checks_prun_other; [exact Hall|].
-        apply Oa. intros Heq. apply Hnin. rewrite <- Heq. apply elem_of_list_fmap. exists cs'. split; [reflexivity|exact Hin].
+      intros [= <-]. destruct (ensure_check_ok _ _ _ _ Ea) as (Va & Sa & _ & Fa & _).
+      destruct (IH _ _ Eb) as (Vb & Sb & Kb).
+      assert (Ka : Keep i pa s) by (apply svc_free_Keep, Fa).
+      split; [apply Valid_app; split; assumption|]. split.
+      + intros HC. apply Safe_app. split; [apply Sa, HC|]. apply Sb. apply Coherent_prun; assumption.
+      + apply Keep_app. split; assumption.
   Qed.
 
   Lemma trace_ok c s ps :
     trace i c s = Some ps -> (forall u, c <> Reap u) ->
-    Valid i ps s /\ (safe_cmd c s -> Safe i ps s).
+    Valid i ps s /\ (Coherent s -> safe_cmd c s -> Safe i ps s) /\ (rename_free c s -> Keep i ps s).
   Proof.
     intros Ht Hreap.
-    assert (E : forall l t, Forall easy l -> Valid i l t /\ (safe_cmd c s -> Safe i l t)).
-    { intros l t Hl. split; [apply easy_Valid, Hl|intros _; apply easy_Safe, Hl]. }
+    assert (E : forall l t, Forall easy l ->
+                Valid i l t /\ (Coherent s -> safe_cmd c s -> Safe i l t) /\ (rename_free c s -> Keep i l t)).
+    { intros l t Hl. split; [apply easy_Valid, Hl|]. split; [intros _ _; apply easy_Safe, Hl|intros _; apply easy_Keep, Hl]. }
+    assert (KV : forall k v f se lk u t, let l := kvs_set i k v f se lk u s in
+                Valid i l t /\ (Coherent s -> safe_cmd c s -> Safe i l t) /\ (rename_free c s -> Keep i l t)).
+    { intros k v f se lk u t l. destruct (kvs_set_ok k v f se lk u s t) as [V S]. split; [exact V|]. split; [intros _ _; exact S|].
+      intros _. apply svc_free_Keep. subst l. unfold kvs_set. destruct (kvs s !! k); [destruct (kv_same _ _)|]; repeat constructor. }
+    assert (N0 : Valid i [] s /\ (Coherent s -> safe_cmd c s -> Safe i [] s) /\ (rename_free c s -> Keep i [] s))
+      by (split; [exact I|split; intros; exact I]).
     destruct c; cbn [trace] in Ht.
-    - injection Ht as <-. destruct (kvs_set_ok k val flags "" 0 false s s). tauto.
+    - injection Ht as <-. apply KV.
     - injection Ht as <-. apply E. unfold kvs_delete. destruct (kvs s !! k); repeat constructor.
     - injection Ht as <-. apply E. unfold kvs_delete_tree. destruct (bool_decide _); repeat constructor.
     - injection Ht as <-. unfold kvs_set_cas.
-      destruct (kvs s !! k) as [x|]; repeat (destruct (bool_decide _));
-        try (split; [exact I|intros; exact I]); destruct (kvs_set_ok k val flags "" 0 false s s); tauto.
+      destruct (kvs s !! k) as [x|]; repeat (destruct (bool_decide _)); try exact N0; apply KV.
     - injection Ht as <-. apply E. unfold kvs_delete_cas. destruct (kvs s !! k); [destruct (bool_decide _)|]; repeat constructor.
-    - injection Ht as <-. unfold kvs_lock. destruct (bool_decide (sid = "")); [split; [exact I|intros; exact I]|].
-      destruct (sessions s !! sid); [|split; [exact I|intros; exact I]].
-      destruct (kvs s !! k) as [x|]; repeat (destruct (bool_decide _));
-        try (split; [exact I|intros; exact I]);
-        match goal with |- context [kvs_set i k ?v ?f ?se ?lk ?u s] => destruct (kvs_set_ok k v f se lk u s s); tauto end.
-    - injection Ht as <-. unfold kvs_unlock. destruct (bool_decide (sid = "")); [split; [exact I|intros; exact I]|].
-      destruct (kvs s !! k) as [x|]; repeat (destruct (bool_decide _));
-        try (split; [exact I|intros; exact I]);
-        match goal with |- context [kvs_set i k ?v ?f ?se ?lk ?u s] => destruct (kvs_set_ok k v f se lk u s s); tauto end.
+    - injection Ht as <-. unfold kvs_lock. destruct (bool_decide (sid = "")); [exact N0|].
+      destruct (sessions s !! sid); [|exact N0].
+      destruct (kvs s !! k) as [x|]; repeat (destruct (bool_decide _)); try exact N0; apply KV.
+    - injection Ht as <-. unfold kvs_unlock. destruct (bool_decide (sid = "")); [exact N0|].
+      destruct (kvs s !! k) as [x|]; repeat (destruct (bool_decide _)); try exact N0; apply KV.
     - exfalso. eapply Hreap. reflexivity.
     - unfold session_create in Ht. destruct (nodes s !! n); [|discriminate].
       destruct (forallb _ _); [|discriminate]. injection Ht as <-. apply E. repeat constructor.
     - injection Ht as <-. apply E. apply delete_session_easy.
     - injection Ht as <-. apply E. apply (ensure_node_ok n addr s s).
-    - destruct (ensure_service_ok _ _ _ _ Ht) as (V & S & _). split; [exact V|exact S].
-    - destruct (ensure_check_ok _ _ _ _ Ht) as (V & S & _). split; [exact V|exact S].
+    - destruct (ensure_service_ok _ _ _ _ Ht) as (V & S & K & _). split; [exact V|]. split; [intros _ _; exact S|exact K].
+    - destruct (ensure_check_ok _ _ _ _ Ht) as (V & S & _ & F & _). split; [exact V|].
+      split; [intros HC _; apply S, HC|intros _; apply svc_free_Keep, F].
     - (* Register *)
       unfold oseq in Ht.
       set (pa := ensure_node i n addr s) in *. set (s1 := prun i pa s) in *.
@@ -514,28 +559,38 @@ Section traces3.
       injection Ht as <-.
       assert (Hs1 : services s1 = services s) by (apply services_prun_free; exact Fa).
       assert (Hc1 : checks s1 = checks s) by (apply checks_prun_free; exact Ca).
-      destruct (checks_loop_ok _ _ _ _ Ec) as [Vc Sc].
-      assert (Hb : Valid i pb s1 /\ (match sp with Some sp0 => svc_safe n sp0 s1 | None => True end -> Safe i pb s1) /\ Forall chk_free pb).
+      destruct (checks_loop_ok _ _ _ _ Ec) as (Vc & Sc & Kc).
+      assert (Hb : Valid i pb s1 /\ Safe i pb s1 /\
+                   (match sp with Some sp0 => svc_safe n sp0 s1 | None => True end -> Keep i pb s1)).
       { destruct sp as [sp0|].
-        - destruct (ensure_service_ok _ _ _ _ Eb) as (V & S & C & _). repeat split; assumption.
-        - injection Eb as <-. repeat split; try exact I. constructor. }
-      destruct Hb as (Vb & Sb & Cb).
-      split.
+        - destruct (ensure_service_ok _ _ _ _ Eb) as (V & S & K & _). repeat split; assumption.
+        - injection Eb as <-. repeat split; try exact I. }
+      destruct Hb as (Vb & Sb & Kb).
+      assert (Hsafe1 : forall sp0, sp = Some sp0 -> svc_safe n sp0 s -> svc_safe n sp0 s1).
+      { intros sp0 _ H. unfold svc_safe in *. rewrite Hs1, Hc1. exact H. }
+      assert (HC1 : Coherent s -> Coherent s1) by (intros HC; apply Coherent_prun; [exact HC|apply easy_Valid, Ea|apply easy_Keep, Ea]).
+      split; [|split].
       + apply Valid_app. split; [apply easy_Valid, Ea|]. apply Valid_app. split; [exact Vb|exact Vc].
-      + intros (Hsp & Hnd & Hall). apply Safe_app. split; [apply easy_Safe, Ea|].
-        apply Safe_app. split.
-        * apply Sb. destruct sp as [sp0|]; [|exact I]. unfold svc_safe in *. rewrite Hs1, Hc1. exact Hsp.
-        * apply Sc; [exact Hnd|]. eapply Forall_impl; [exact Hall|]. intros cs Hcs. unfold chk_safe in *.
-          change (checks s2) with (checks (prun i pb s1)). rewrite checks_prun_free by exact Cb. rewrite Hc1. exact Hcs.
-    - injection Ht as <-. split; [apply delete_node_valid|intros _]. apply always_safe_Safe.
-      unfold delete_node. destruct (nodes s !! n); [|constructor]. unfold seq.
-      repeat (apply Forall_app; split); try (repeat constructor).
-      + apply Forall_fmap, Forall_forall. intros; exact I.
-      + apply seq_all_Forall. intros. eapply Forall_impl; [apply delete_service_easy|apply easy_always_safe].
-      + apply seq_all_Forall. intros. eapply Forall_impl; [apply delete_check_easy|apply easy_always_safe].
-      + destruct (coords _ !! n); repeat constructor.
-      + eapply Forall_impl; [apply (delete_sessions_light i (fun kv : string * sess => kv.1))|].
-        intros p Hp. apply easy_always_safe, light_easy, Hp.
+      + intros HC Hs. apply Safe_app. split; [apply easy_Safe, Ea|].
+        apply Safe_app. split; [exact Sb|].
+        destruct sp as [sp0|].
+        * destruct Hs as [->|Hs].
+          -- cbn in Ec. injection Ec as <-. exact I.
+          -- apply Sc. apply Coherent_prun; [apply HC1, HC|exact Vb|apply Kb, (Hsafe1 sp0 eq_refl Hs)].
+        * apply Sc. apply Coherent_prun; [apply HC1, HC|exact Vb|apply Kb; exact I].
+      + intros Hr. apply Keep_app. split; [apply easy_Keep, Ea|]. apply Keep_app. split; [|exact Kc].
+        apply Kb. destruct sp as [sp0|]; [exact (Hsafe1 sp0 eq_refl Hr)|exact I].
+    - injection Ht as <-. split; [apply delete_node_valid|].
+      assert (HA : Forall always_safe (delete_node i n s)).
+      { unfold delete_node. destruct (nodes s !! n); [|constructor]. unfold seq.
+        repeat (apply Forall_app; split); try (repeat constructor).
+        + apply Forall_fmap, Forall_forall. intros; exact I.
+        + apply seq_all_Forall. intros. eapply Forall_impl; [apply delete_service_easy|apply easy_always_safe].
+        + apply seq_all_Forall. intros. eapply Forall_impl; [apply delete_check_easy|apply easy_always_safe].
+        + destruct (coords _ !! n); repeat constructor.
+        + eapply Forall_impl; [apply (delete_sessions_light i (fun kv : string * sess => kv.1))|].
+          intros p Hp. apply easy_always_safe, light_easy, Hp. }
+      split; [intros _ _; apply always_safe_Safe, HA|intros _; apply always_safe_Keep, HA].
     - injection Ht as <-. apply E. apply delete_service_easy.
     - injection Ht as <-. apply E. apply delete_check_easy.
     - destruct (nodes s !! n); injection Ht as <-; apply E; repeat constructor.
